@@ -147,6 +147,7 @@ def order_property(prop: str, lvl: str, repo: str, tier: str) -> CheckResult:
             res.add('ENUM-PER-ID', f['func'], f['construct'], False, f['detail'], f['file'], f['line'], f['witness'])
     add_findings(res, results, {'UNMODELLED-MUTATION'}, want, as_rule=lambda f: 'IDX')
     add_findings(res, results, {'SWAP-EXCHANGE'}, want, as_rule=lambda f: 'CONSERVE')
+    add_findings(res, results, {'LIVE-ITER'}, want, as_rule=lambda f: 'IDX')
     if lvl == 'item':
         add_sites(res, {c: r for c, r in results.items() if want_c(c)}, 'item-lookup', 'STORY-SCOPED')
         add_findings(res, results, {'STORY-SCOPED'}, want)
@@ -266,6 +267,7 @@ def prop_C06(repo, tier):
             res.add('ENUM-PER-ID', f['func'], f['construct'], False, f['detail'], f['file'], f['line'], f['witness'])
         res.add('NO-EARLY-EXIT', f'{cname}.merge', 'loops over named elements', True)
     add_findings(res, results, {'MISS-REPORTED', 'WARN-CATEGORY', 'SILENT-SUCCESS', 'NO-EARLY-EXIT'})
+    add_findings(res, results, {'LIVE-ITER'}, as_rule=lambda f: 'NO-EARLY-EXIT')
     res.floors = {'MISS-REPORTED': 30, 'WARN-CATEGORY': 7}
     res.explanation = (
         'Static analysis of every merge: each id-keyed lookup miss (and each duplicate-story test) creates a pending report that must '
@@ -752,7 +754,14 @@ def prop_C09(repo, tier):
         res.add('DEFAULT-STRICT', 'MosCollection.merge', 'def merge(self, *, strict=True)', ok, '' if ok else f'signature: positional={r["positional"]} keyword-only={sig}')
     rules_shape.handler_covers(res, prog)
     rules_shape.fresh_read(res, prog)
-    res.floors = {'FOLD-LOOP': 2, 'FRESH-READ': 2, 'APPLY-VIA-ADD': 1, 'STRICT-RERAISE': 1, 'ONE-WARNING': 2}
+    from . import rules_pred
+    tmp = CheckResult('C09', tier)
+    rules_pred.accept_table(tmp, prog)
+    res.rules['POST-STATE'] = 'the readers that merge() folds are all messages of the collection except the roCreate (which is the initial running order)'
+    for e in tmp.errors:
+        res.error(e)
+    res.obligations.extend(o for o in tmp.obligations if o.rule == 'POST-STATE')
+    res.floors = {'FOLD-LOOP': 2, 'FRESH-READ': 2, 'APPLY-VIA-ADD': 1, 'STRICT-RERAISE': 1, 'ONE-WARNING': 2, 'POST-STATE': 2}
     res.explanation = (
         'Static analysis: MosCollection.merge is interpreted (strict=True and strict=False) over a symbolic collection whose reader list '
         'has unknown length and whose restored messages are opaque objects that either merge or raise MosMergeError; the real '
